@@ -11,7 +11,7 @@
  * unit u runs on worker u % nworkers and draws from its own PRNG stream
  * (seed, u), so the cases do not depend on the number of workers.
  *
- *   --seed S --worker I --nworkers N --cases C --tier 0|1 --fixtures DIR
+ *   --seed S --worker I --nworkers N --cases C --tier 0/1 --fixtures DIR
  *   [--unit U]   run only unit U (debug / replay)
  *   [--list 1]   print the unit table
  *
@@ -533,7 +533,7 @@ sec_raw(const rkey *k, const impl_t *m)
 				vf_viol("C10:raw:public-of-private", "public(private(x)) != x",
 					"%s pk=%s r=%u x=%s", g_ctx, pv.desc, r2, vf_hexs(x, nlen));
 		}
-		vf_distinct("config", "raw/%s/%s/%s/%s", m->name, k->name, pv.desc, sv.desc);
+		vf_distinct("config", "raw/%s/%s/v%d", m->name, k->name, (int)(j & 3));
 		if (j == 4) vf_sample("{\"sec\":\"raw\",\"impl\":\"%s\",\"key\":\"%s\",\"x\":\"%s\",\"x^e\":\"%s\"}",
 			m->name, k->name, vf_hexs(x, nlen > 32 ? 32 : nlen), vf_hexs(rp, nlen > 32 ? 32 : nlen));
 		free(b1); free(b2); free_pk(&pv); free_sk(&sv);
@@ -1162,4 +1162,829 @@ sec_pss(const rkey *k, const impl_t *m)
 	free_pk(&pv); free_pk(&pz);
 done:
 	free(sig); free(em); free(em2); free(osig); free(pos);
+}
+
+/* ------------------------------------------------------------------ */
+/* Section OAEP */
+
+/* EM = Y || maskedSeed || maskedDB from the unmasked parts (db has k-h-1 bytes) */
+static void
+ref_oaep_mask(unsigned char *em, size_t k, const hdesc *h, unsigned char y,
+	const unsigned char *seed, const unsigned char *db)
+{
+	size_t hl = h->hlen, dbl = k - hl - 1;
+	em[0] = y;
+	memcpy(em + 1, seed, hl);
+	memcpy(em + 1 + hl, db, dbl);
+	ref_mgf1_xor(h, em + 1 + hl, dbl, seed, hl);
+	ref_mgf1_xor(h, em + 1, hl, em + 1 + hl, dbl);
+}
+
+/* DB = lHash || PS || 01 || M */
+static void
+ref_oaep_db(unsigned char *db, size_t k, const hdesc *h, const unsigned char *label, size_t llen,
+	const unsigned char *msg, size_t mlen)
+{
+	size_t hl = h->hlen, dbl = k - hl - 1;
+	memset(db, 0, dbl);
+	ref_hash(h, db, label, llen, NULL, 0, NULL, 0);
+	db[dbl - mlen - 1] = 0x01;
+	memcpy(db + dbl - mlen, msg, mlen);
+}
+
+/* RFC 8017 7.1.2 step 3: returns 1 and the message, or 0 */
+static int
+ref_oaep_decode(const unsigned char *em, size_t k, const hdesc *h,
+	const unsigned char *label, size_t llen, unsigned char *msg, size_t *mlen)
+{
+	size_t hl = h->hlen, dbl, u;
+	unsigned char *t, lh[64];
+	int ok = 0;
+	if (k < 2 * hl + 2) return 0;
+	dbl = k - hl - 1;
+	t = vf_dup(em, k);
+	ref_mgf1_xor(h, t + 1, hl, t + 1 + hl, dbl);
+	ref_mgf1_xor(h, t + 1 + hl, dbl, t + 1, hl);
+	ref_hash(h, lh, label, llen, NULL, 0, NULL, 0);
+	if (t[0] == 0 && memcmp(t + 1 + hl, lh, hl) == 0) {
+		for (u = 1 + 2 * hl; u < k && t[u] == 0; u ++) ;
+		if (u < k && t[u] == 0x01) {
+			*mlen = k - u - 1;
+			memcpy(msg, t + u + 1, *mlen);
+			ok = 1;
+		}
+	}
+	free(t);
+	return ok;
+}
+
+static EVP_PKEY_CTX *
+oaep_ctx(const rkey *k, int enc, const hdesc *h, const unsigned char *label, size_t llen)
+{
+	EVP_PKEY_CTX *c = EVP_PKEY_CTX_new(k->pkey, NULL);
+	if (!c || (enc ? EVP_PKEY_encrypt_init(c) : EVP_PKEY_decrypt_init(c)) != 1
+		|| EVP_PKEY_CTX_set_rsa_padding(c, RSA_PKCS1_OAEP_PADDING) != 1
+		|| EVP_PKEY_CTX_set_rsa_oaep_md(c, h->mdf()) != 1
+		|| EVP_PKEY_CTX_set_rsa_mgf1_md(c, h->mdf()) != 1)
+		HARNESS_FAIL("oaep-ctx");
+	if (llen) {
+		void *l = OPENSSL_memdup(label, llen);
+		if (EVP_PKEY_CTX_set0_rsa_oaep_label(c, l, (int)llen) != 1) HARNESS_FAIL("oaep-label");
+	}
+	return c;
+}
+
+/* run oaep_decrypt on ciphertext c and compare with the expectation */
+static void
+oaep_check_dec(const impl_t *m, const br_rsa_private_key *sk, const unsigned char *c, size_t clen,
+	const hdesc *h, const unsigned char *label, size_t llen,
+	int expect, const unsigned char *emsg, size_t emlen, const char *key, const char *what)
+{
+	unsigned char *d = vf_dup(c, clen);
+	unsigned char *lb = llen ? vf_dup(label, llen) : NULL;
+	size_t *lp = xmalloc(sizeof *lp);
+	uint32_t r;
+	*lp = clen;
+	r = m->odec(h->bc, lb, llen, sk, d, lp);
+	if ((r != 0) != (expect != 0) || (r != 0 && r != 1)
+		|| (expect && (*lp != emlen || memcmp(d, emsg, emlen) != 0))
+		|| (!expect && *lp != clen))
+		vf_viol(key, what, "%s hash=%s llen=%u expect=%d got=%u len=%u/%u label=%s ct=%s", g_ctx, h->name, (unsigned)llen,
+			expect, r, (unsigned)*lp, (unsigned)emlen, vf_hexs(label, llen), vf_hexs(c, clen));
+	free(d); free(lb); free(lp);
+}
+
+static void
+sec_oaep(const rkey *k, const impl_t *m)
+{
+	size_t nlen = k->nlen;
+	long ncombo = budget(k, m, 1, 2, g_tier ? 60 : 10);
+	long npos = budget(k, m, 1, 6, g_tier ? 600 : 48);
+	long it, nfit = 0;
+	pkv pv, pz;
+	unsigned char *ct = xmalloc(nlen), *em = xmalloc(nlen), *em2 = xmalloc(nlen), *db = xmalloc(nlen),
+		*msg = xmalloc(nlen), *msg2 = xmalloc(nlen);
+	size_t *pos = xmalloc((nlen + 1) * sizeof *pos);
+	br_hmac_drbg_context dc;
+
+	if (!m->oenc || !m->odec) { vf_stat("impl_unavailable", 1); goto done; }
+	mk_pk(&pv, k, 0, 0);
+	mk_pk(&pz, k, 1 + vf_below(&R, 3), vf_below(&R, 2));
+	drbg_init(&dc);
+	for (it = 0; it < ncombo; it ++) {
+		const hdesc *h = &HASHES[(unsigned)((unsigned long)it + (unsigned)g_unit) % NHASH];
+		size_t hl = h->hlen;
+		long maxm = (long)nlen - 2 * (long)hl - 2;
+		unsigned char label[64], seed[64];
+		size_t llen, mlen, r;
+		skv sv;
+		unsigned char *dst;
+
+		switch (it % 4) {
+		case 0: llen = 0; break;
+		case 1: llen = 64; break;
+		default: llen = vf_range(&R, 1, 63); break;
+		}
+		vf_bytes(&R, label, llen);
+		if (maxm < 0) {
+			dst = xmalloc(nlen);
+			r = m->oenc(&dc.vtable, h->bc, llen ? label : NULL, llen, &pv.pk, dst, nlen, msg, 0);
+			CMP("oaep_too_small");
+			if (r != 0)
+				vf_viol("C10:oaep:encrypt-modulus-too-small", "oaep_encrypt succeeded although k < 2*hLen + 2",
+					"%s hash=%s", g_ctx, h->name);
+			free(dst);
+			mk_sk(&sv, k, 0, NULL);
+			rand_below_n(k, ct);
+			CMP("oaep_too_small");
+			oaep_check_dec(m, &sv.sk, ct, nlen, h, label, llen, 0, NULL, 0, "C10:strict:oaep-modulus-too-small", "oaep_decrypt succeeded although k < 2*hLen + 2");
+			free_sk(&sv);
+			continue;
+		}
+		switch ((it / 2) % 4) {
+		case 0: mlen = (size_t)maxm; break;
+		case 1: mlen = 0; break;
+		default: mlen = vf_range(&R, 0, (uint32_t)maxm); break;
+		}
+		vf_bytes(&R, msg, mlen);
+		nfit ++;
+		vf_distinct("config", "oaep/%s/%s/%s/l%u/m%u", m->name, k->name, h->name,
+			llen == 0 ? 0u : llen == 64 ? 64u : 1u, mlen == 0 ? 0u : mlen == (size_t)maxm ? 9999u : 1u);
+
+		/* encrypted here -> decrypted by OpenSSL */
+		{
+			unsigned char *src = vf_dup(msg, mlen);
+			unsigned char *lb = llen ? vf_dup(label, llen) : NULL;
+			size_t dmax = nlen + ((it & 1) ? vf_below(&R, 8) : 0);
+			dst = xmalloc(dmax);
+			r = m->oenc(&dc.vtable, h->bc, lb, llen, (it & 4) ? &pv.pk : &pv.pk, dst, dmax, src, mlen);
+			CMP("oaep_encrypt_openssl_decrypts");
+			if (r != nlen) {
+				vf_viol("C10:oaep:encrypt-failed", "oaep_encrypt did not return the modulus length",
+					"%s hash=%s llen=%u mlen=%u r=%u", g_ctx, h->name, (unsigned)llen, (unsigned)mlen, (unsigned)r);
+			} else {
+				EVP_PKEY_CTX *c = oaep_ctx(k, 0, h, label, llen);
+				size_t ol = nlen;
+				int v = EVP_PKEY_decrypt(c, msg2, &ol, dst, nlen);
+				EVP_PKEY_CTX_free(c);
+				if (v != 1 || ol != mlen || memcmp(msg2, msg, mlen) != 0) {
+					ERR_clear_error();
+					vf_viol("C10:oaep:openssl-rejects", "OpenSSL cannot decrypt (or decrypts differently) an OAEP ciphertext made here",
+						"%s hash=%s llen=%u mlen=%u v=%d label=%s ct=%s", g_ctx, h->name, (unsigned)llen, (unsigned)mlen, v,
+						vf_hexs(label, llen), vf_hexs(dst, nlen));
+				}
+			}
+			free(dst); free(src); free(lb);
+			/* too long a message, too small a destination */
+			src = xmalloc((size_t)maxm + 1);
+			vf_bytes(&R, src, (size_t)maxm + 1);
+			dst = xmalloc(nlen);
+			r = m->oenc(&dc.vtable, h->bc, label, llen, &pv.pk, dst, nlen, src, (size_t)maxm + 1);
+			CMP("oaep_encrypt_limits");
+			if (r != 0)
+				vf_viol("C10:oaep:encrypt-message-too-long", "oaep_encrypt accepted a message longer than k-2hLen-2",
+					"%s hash=%s", g_ctx, h->name);
+			free(dst);
+			dst = xmalloc(nlen - 1);
+			r = m->oenc(&dc.vtable, h->bc, label, llen, &pv.pk, dst, nlen - 1, src, mlen);
+			CMP("oaep_encrypt_limits");
+			if (r != 0)
+				vf_viol("C10:oaep:encrypt-destination-too-small", "oaep_encrypt succeeded with dst_max_len < modulus length",
+					"%s hash=%s", g_ctx, h->name);
+			free(dst); free(src);
+		}
+		/* modulus stored with leading zero bytes: documented to give the same (mathematical) length */
+		if (nfit <= 2) {
+			unsigned char *src = vf_dup(msg, mlen);
+			size_t dmax = pz.pk.nlen;
+			dst = xmalloc(dmax);
+			r = m->oenc(&dc.vtable, h->bc, label, llen, &pz.pk, dst, dmax, src, mlen);
+			CMP("oaep_encrypt_leading_zero_n");
+			if (r != nlen) {
+				vf_viol("C10:oaep:encrypt-leading-zero-n", "oaep_encrypt with leading zero bytes in n does not return the mathematical modulus length",
+					"%s hash=%s pk=%s mlen=%u r=%u", g_ctx, h->name, pz.desc, (unsigned)mlen, (unsigned)r);
+			} else {
+				EVP_PKEY_CTX *c = oaep_ctx(k, 0, h, label, llen);
+				size_t ol = nlen;
+				int v = EVP_PKEY_decrypt(c, msg2, &ol, dst, nlen);
+				EVP_PKEY_CTX_free(c);
+				if (v != 1 || ol != mlen || memcmp(msg2, msg, mlen) != 0) {
+					ERR_clear_error();
+					vf_viol("C10:oaep:encrypt-leading-zero-n", "oaep_encrypt with leading zero bytes in n: OpenSSL cannot decrypt",
+						"%s hash=%s pk=%s", g_ctx, h->name, pz.desc);
+				}
+			}
+			free(dst); free(src);
+		}
+
+		/* encrypted by OpenSSL -> decrypted here (key field variants) */
+		{
+			EVP_PKEY_CTX *c = oaep_ctx(k, 1, h, label, llen);
+			size_t ol = nlen;
+			if (EVP_PKEY_encrypt(c, ct, &ol, msg, mlen) != 1 || ol != nlen) HARNESS_FAIL("oaep-openssl-encrypt");
+			EVP_PKEY_CTX_free(c);
+		}
+		mk_sk_var(&sv, k, (int)(it & 3));
+		CMP("oaep_decrypt_openssl_ct");
+		oaep_check_dec(m, &sv.sk, ct, nlen, h, label, llen, 1, msg, mlen, "C10:oaep:decrypt-openssl", "oaep_decrypt fails on / differs for an OpenSSL OAEP ciphertext");
+		if (nfit == 1) vf_sample("{\"sec\":\"oaep\",\"impl\":\"%s\",\"key\":\"%s\",\"hash\":\"%s\",\"llen\":%u,\"mlen\":%u,\"ct\":\"%s\"}",
+			m->name, k->name, h->name, (unsigned)llen, (unsigned)mlen, vf_hexs(ct, nlen > 48 ? 48 : nlen));
+		free_sk(&sv);
+		mk_sk(&sv, k, 0, NULL);
+		/* wrong label, wrong length (the latter costs no private operation) */
+		{
+			unsigned char l2[65];
+			unsigned char *b = xmalloc(nlen + 1);
+			memcpy(l2, label, llen);
+			if (llen == 0) { l2[0] = 0; CMP("oaep_strict_label");
+				oaep_check_dec(m, &sv.sk, ct, nlen, h, l2, 1, 0, NULL, 0, "C10:strict:oaep-wrong-label", "oaep_decrypt accepted with another label");
+			} else if (it % 3 == 0) { l2[vf_below(&R, (uint32_t)llen)] ^= 0x40; CMP("oaep_strict_label");
+				oaep_check_dec(m, &sv.sk, ct, nlen, h, l2, llen, 0, NULL, 0, "C10:strict:oaep-wrong-label", "oaep_decrypt accepted with another label");
+			}
+			CMP("oaep_strict_len");
+			oaep_check_dec(m, &sv.sk, ct + 1, nlen - 1, h, label, llen, 0, NULL, 0, "C10:strict:oaep-wrong-length", "oaep_decrypt accepted a ciphertext of wrong length");
+			b[0] = 0; memcpy(b + 1, ct, nlen);
+			CMP("oaep_strict_len");
+			oaep_check_dec(m, &sv.sk, b, nlen + 1, h, label, llen, 0, NULL, 0, "C10:strict:oaep-wrong-length", "oaep_decrypt accepted a ciphertext of wrong length");
+			free(b);
+		}
+
+		/* encodings altered before masking (structure) and after masking (any byte):
+		   expectation from the RFC 8017 decoding model */
+		if (nfit <= 3 || g_tier) {
+			size_t dbl = nlen - hl - 1, u, np_, nstruct;
+			long quota = npos / (ncombo < 3 ? ncombo : 3);
+			vf_bytes(&R, seed, hl);
+			ref_oaep_db(db, nlen, h, label, llen, msg, mlen);
+			ref_oaep_mask(em, nlen, h, 0, seed, db);
+			if (!forge_pub(k, ct, em)) HARNESS_FAIL("oaep-em-ge-n");
+			{
+				EVP_PKEY_CTX *c = oaep_ctx(k, 0, h, label, llen);
+				size_t ol = nlen;
+				if (EVP_PKEY_decrypt(c, msg2, &ol, ct, nlen) != 1 || ol != mlen || memcmp(msg, msg2, mlen) != 0)
+					HARNESS_FAIL("oaep-encoder-vs-openssl");
+				EVP_PKEY_CTX_free(c);
+			}
+			CMP("oaep_decrypt_own_encoding");
+			oaep_check_dec(m, &sv.sk, ct, nlen, h, label, llen, 1, msg, mlen, "C10:oaep:decrypt-rfc8017-encoding", "oaep_decrypt rejects a valid RFC 8017 EME-OAEP encoding");
+			/* structural alterations of the unmasked block */
+			nstruct = 7;
+			for (u = 0; u < nstruct; u ++) {
+				unsigned char y = 0, *d2 = vf_dup(db, dbl);
+				size_t pslen = dbl - hl - 1 - mlen, ml2 = 0;
+				int exp;
+				const char *kind;
+				switch (u) {
+				case 0: y = (unsigned char)vf_range(&R, 1, 255); kind = "Y-nonzero"; break;
+				case 1: d2[vf_below(&R, (uint32_t)hl)] ^= (unsigned char)vf_range(&R, 1, 255); kind = "lHash-byte"; break;
+				case 2: d2[hl - 1] ^= 0x01; kind = "lHash-last-byte"; break;
+				case 3: d2[hl + pslen] = (unsigned char)(2 + vf_below(&R, 254)); kind = "separator-not-01"; break;
+				case 4: if (pslen == 0) { free(d2); continue; }
+					d2[hl + vf_below(&R, (uint32_t)pslen)] = (unsigned char)(2 + vf_below(&R, 254)); kind = "PS-nonzero"; break;
+				case 5: if (pslen == 0) { free(d2); continue; }
+					d2[hl + vf_below(&R, (uint32_t)pslen)] = 0x01; kind = "PS-early-01"; break;
+				default: memset(d2 + hl, 0, dbl - hl); kind = "no-separator"; break;
+				}
+				ref_oaep_mask(em2, nlen, h, y, seed, d2);
+				free(d2);
+				if (!forge_pub(k, ct, em2)) { vf_stat("forge_skipped_ge_n", 1); continue; }
+				exp = ref_oaep_decode(em2, nlen, h, label, llen, msg2, &ml2);
+				CMP("oaep_strict_structure");
+				vf_stat(exp ? "oaep_struct_expect_accept" : "oaep_struct_expect_reject", 1);
+				vf_distinct("oaep_struct", "%s/%d", kind, exp);
+				oaep_check_dec(m, &sv.sk, ct, nlen, h, label, llen, exp, msg2, ml2,
+					exp ? "C10:oaep:decrypt-model-mismatch" : "C10:strict:oaep-bad-structure",
+					exp ? "oaep_decrypt differs from the RFC 8017 decoding of a valid (re-delimited) block"
+					    : "oaep_decrypt accepted a block with invalid structure");
+			}
+			/* any byte of EM altered */
+			{
+				size_t must[8], nm = 0;
+				must[nm ++] = 0; must[nm ++] = 1; must[nm ++] = hl; must[nm ++] = hl + 1;
+				must[nm ++] = 2 * hl; must[nm ++] = 2 * hl + 1; must[nm ++] = nlen - 1; must[nm ++] = nlen - 1 - mlen;
+				np_ = pick_positions(pos, nlen, (size_t)(quota > 7 ? quota - 7 : 1), must, nm);
+				for (u = 0; u < np_; u ++) {
+					size_t ml2 = 0;
+					int exp;
+					memcpy(em2, em, nlen);
+					em2[pos[u]] = alt_byte(em[pos[u]], (unsigned)(u + (size_t)it));
+					if (!forge_pub(k, ct, em2)) { vf_stat("forge_skipped_ge_n", 1); continue; }
+					exp = ref_oaep_decode(em2, nlen, h, label, llen, msg2, &ml2);
+					CMP("oaep_strict_altered_byte");
+					oaep_check_dec(m, &sv.sk, ct, nlen, h, label, llen, exp, msg2, ml2, "C10:strict:oaep-altered-byte", "oaep_decrypt accepted an encoding with one altered byte");
+				}
+				vf_max("oaep_positions_per_em", (long long)np_);
+			}
+		}
+		free_sk(&sv);
+	}
+	/* oversized modulus: documented to return 0 */
+	{
+		br_rsa_public_key pe;
+		size_t bl = (BR_MAX_RSA_SIZE >> 3) + 1, r;
+		unsigned char *b = xmalloc(bl);
+		pe.n = xmalloc(bl); pe.nlen = bl;
+		vf_bytes(&R, pe.n, bl);
+		pe.n[0] = 0x01; pe.n[bl - 1] |= 1;
+		pe.e = bn_buf(k->e, 0, &pe.elen);
+		r = m->oenc(&dc.vtable, HASHES[1].bc, NULL, 0, &pe, b, bl, msg, 10);
+		CMP("oaep_oversized_modulus");
+		if (r != 0)
+			vf_viol("C10:strict:oaep-oversized-modulus", "oaep_encrypt succeeded with a 4097-bit modulus", "%s", g_ctx);
+		free(b); free(pe.n); free(pe.e);
+	}
+	free_pk(&pv); free_pk(&pz);
+done:
+	free(ct); free(em); free(em2); free(db); free(msg); free(msg2); free(pos);
+}
+
+/* ------------------------------------------------------------------ */
+/* Section TLS: br_rsa_ssl_decrypt (RSA key exchange, PKCS#1 v1.5 type 2) */
+
+static int
+ref_tls_accepts(const unsigned char *em, size_t k)
+{
+	size_t u;
+	if (em[0] != 0x00 || em[1] != 0x02 || em[k - 49] != 0x00) return 0;
+	for (u = 2; u < k - 49; u ++) if (em[u] == 0) return 0;
+	return 1;
+}
+
+static void
+tls_check(const impl_t *m, const br_rsa_private_key *sk, const unsigned char *c, size_t clen,
+	int expect, const unsigned char *pms, const char *key, const char *what)
+{
+	unsigned char *d = vf_dup(c, clen);
+	uint32_t r = br_rsa_ssl_decrypt(m->priv, sk, d, clen);
+	if ((r != 0) != (expect != 0) || (r != 0 && r != 1) || (expect && memcmp(d, pms, 48) != 0))
+		vf_viol(key, what, "%s expect=%d got=%u ct=%s", g_ctx, expect, r, vf_hexs(c, clen));
+	free(d);
+}
+
+static void
+sec_tls(const rkey *k, const impl_t *m)
+{
+	size_t nlen = k->nlen, u;
+	long nenc = budget(k, m, 1, 2, g_tier ? 40 : 6) / 2 + 1;
+	long npos = budget(k, m, 1, 6, g_tier ? 600 : 48);
+	long it;
+	unsigned char *ct = xmalloc(nlen), *em = xmalloc(nlen), *em2 = xmalloc(nlen);
+	size_t *pos = xmalloc((nlen + 1) * sizeof *pos);
+	unsigned char pms[48];
+
+	if (!m->priv) { vf_stat("impl_unavailable", 1); goto done; }
+	if (nlen < 59) HARNESS_FAIL("tls-key-too-small");
+	for (it = 0; it < nenc; it ++) {
+		skv sv;
+		vf_bytes(&R, pms, 48);
+		pms[0] = 3; pms[1] = (unsigned char)vf_below(&R, 4);
+		if (RSA_public_encrypt(48, pms, ct, k->rsa, RSA_PKCS1_PADDING) != (int)nlen) HARNESS_FAIL("tls-openssl-encrypt");
+		mk_sk_var(&sv, k, (int)(it & 3));
+		CMP("tls_decrypt_openssl_ct");
+		tls_check(m, &sv.sk, ct, nlen, 1, pms, "C10:tls:decrypt-openssl", "br_rsa_ssl_decrypt fails on / differs for an OpenSSL type-2 block");
+		vf_distinct("config", "tls/%s/%s/v%d", m->name, k->name, (int)(it & 3));
+		if (it == 0) {
+			/* wrong length: 0, buffer unmodified (no private operation involved) */
+			int v;
+			for (v = 0; v < 2; v ++) {
+				size_t l = v ? nlen + 1 : nlen - 1;
+				unsigned char *b = xmalloc(l), *b0;
+				uint32_t r;
+				vf_bytes(&R, b, l);
+				b[0] = 0;
+				b0 = vf_dup(b, l);
+				r = br_rsa_ssl_decrypt(m->priv, &sv.sk, b, l);
+				CMP("tls_strict_len");
+				if (r != 0 || memcmp(b, b0, l) != 0)
+					vf_viol("C10:strict:tls-wrong-length", "br_rsa_ssl_decrypt with len != modulus length: nonzero result or buffer modified",
+						"%s len=%u r=%u", g_ctx, (unsigned)l, r);
+				free(b); free(b0);
+			}
+			vf_sample("{\"sec\":\"tls\",\"impl\":\"%s\",\"key\":\"%s\",\"pms\":\"%s\"}", m->name, k->name, vf_hexs(pms, 48));
+		}
+		free_sk(&sv);
+	}
+	/* own encodings and alterations, judged by the model */
+	{
+		skv sv;
+		size_t must[64], nm = 0, np_;
+		int v;
+		mk_sk(&sv, k, 0, NULL);
+		em[0] = 0; em[1] = 2;
+		for (u = 2; u < nlen - 49; u ++) em[u] = (unsigned char)vf_range(&R, 1, 255);
+		em[nlen - 49] = 0;
+		vf_bytes(&R, em + nlen - 48, 48);
+		if (!forge_pub(k, ct, em)) HARNESS_FAIL("tls-em-ge-n");
+		CMP("tls_decrypt_own_encoding");
+		tls_check(m, &sv.sk, ct, nlen, 1, em + nlen - 48, "C10:tls:decrypt-own-encoding", "br_rsa_ssl_decrypt rejects a valid type-2 block");
+		/* payload of 47 / 49 / 0 bytes, separator missing */
+		for (v = 0; v < 4; v ++) {
+			memcpy(em2, em, nlen);
+			switch (v) {
+			case 0: em2[nlen - 49] = (unsigned char)vf_range(&R, 1, 255); em2[nlen - 48] = 0; break;
+			case 1: em2[nlen - 50] = 0; em2[nlen - 49] = (unsigned char)vf_range(&R, 1, 255); break;
+			case 2: em2[nlen - 49] = (unsigned char)vf_range(&R, 1, 255); em2[nlen - 1] = 0; break;
+			default: for (u = nlen - 49; u < nlen; u ++) if (!em2[u]) em2[u] = 1; break;
+			}
+			if (!forge_pub(k, ct, em2)) continue;
+			CMP("tls_strict_payload_length");
+			tls_check(m, &sv.sk, ct, nlen, ref_tls_accepts(em2, nlen), em2 + nlen - 48, "C10:strict:tls-payload-length", "br_rsa_ssl_decrypt accepted a block whose payload is not 48 bytes");
+		}
+		for (u = 0; u < 12; u ++) must[nm ++] = u;
+		for (u = nlen - 52; u < nlen - 44; u ++) must[nm ++] = u;
+		must[nm ++] = nlen - 1;
+		np_ = pick_positions(pos, nlen, (size_t)npos, must, nm);
+		for (u = 0; u < np_; u ++) {
+			int exp;
+			memcpy(em2, em, nlen);
+			/* in the PS region alternate between zeroing (must reject) and another non-zero value */
+			em2[pos[u]] = alt_byte(em[pos[u]], (pos[u] >= 2 && pos[u] < nlen - 49) ? (unsigned)(2 + (u & 1) * 2) : (unsigned)u);
+			if (!forge_pub(k, ct, em2)) { vf_stat("forge_skipped_ge_n", 1); continue; }
+			exp = ref_tls_accepts(em2, nlen);
+			CMP("tls_strict_altered_byte");
+			vf_stat(exp ? "tls_altered_expect_accept" : "tls_altered_expect_reject", 1);
+			tls_check(m, &sv.sk, ct, nlen, exp, em2 + nlen - 48,
+				exp ? "C10:tls:decrypt-model-mismatch" : "C10:strict:tls-altered-byte",
+				exp ? "br_rsa_ssl_decrypt rejects / mis-extracts a valid block" : "br_rsa_ssl_decrypt accepted a block with an altered padding byte");
+		}
+		vf_max("tls_positions_per_em", (long long)np_);
+		free_sk(&sv);
+	}
+done:
+	free(ct); free(em); free(em2); free(pos);
+}
+
+/* ------------------------------------------------------------------ */
+/* compute_modulus / compute_pubexp / compute_privexp on one private key view */
+
+static void
+check_compute(const rkey *k, const impl_t *m, const skv *sv, int from_keygen)
+{
+	size_t nlen = k->nlen;
+
+	if (m->cmod) {
+		unsigned char *nb = xmalloc(nlen), *ref = xmalloc(nlen);
+		size_t l0 = m->cmod(NULL, &sv->sk), l1;
+		memset(nb, 0x5A, nlen);
+		l1 = m->cmod(nb, &sv->sk);
+		BN_bn2binpad(k->n, ref, (int)nlen);
+		CMP("compute_modulus");
+		if (l0 != nlen || l1 != nlen || memcmp(nb, ref, nlen) != 0)
+			vf_viol("C10:compute:modulus", "compute_modulus differs from p*q (BIGNUM)", "%s sk=%s l0=%u l1=%u got=%s",
+				g_ctx, sv->desc, (unsigned)l0, (unsigned)l1, vf_hexs(nb, nlen));
+		free(nb); free(ref);
+	}
+	if (m->cpub) {
+		uint32_t e = m->cpub(&sv->sk);
+		if (!k->m3 || k->ebits > 32) {
+			/* documented: 0 if p or q is not 3 mod 4, or e does not fit 32 bits */
+			CMP("compute_pubexp_documented_zero");
+			if (e != 0)
+				vf_viol("C10:compute:pubexp-not-zero", "compute_pubexp non-zero although p/q != 3 mod 4 or e > 32 bits",
+					"%s sk=%s got=%u", g_ctx, sv->desc, e);
+		} else {
+			CMP("compute_pubexp");
+			if (e != k->e32)
+				vf_viol(from_keygen ? "C10:keygen:pubexp" : "C10:compute:pubexp", "compute_pubexp does not return the public exponent",
+					"%s sk=%s got=%u want=%u", g_ctx, sv->desc, e, k->e32);
+		}
+	}
+	if (m->cpriv && k->e32) {
+		size_t l0 = m->cpriv(NULL, &sv->sk, k->e32), l1;
+		unsigned char *db = xmalloc(l0 ? l0 : nlen);
+		l1 = m->cpriv(db, &sv->sk, k->e32);
+		if (k->m3) {
+			CMP("compute_privexp_succeeds");
+			if (l0 == 0 || l1 == 0)
+				vf_viol(from_keygen ? "C10:keygen:privexp" : "C10:compute:privexp-fails", "compute_privexp failed on a valid key with p = q = 3 mod 4",
+					"%s sk=%s l0=%u l1=%u", g_ctx, sv->desc, (unsigned)l0, (unsigned)l1);
+		} else {
+			vf_stat(l1 ? "unjudged_privexp_not_m3_ok" : "unjudged_privexp_not_m3_zero", 1);
+		}
+		if (l1 != 0) {
+			/* a returned value must be a private exponent: e*d = 1 mod lcm(p-1, q-1) */
+			BIGNUM *d = bn_from(db, l1), *p1 = BN_dup(k->p), *q1 = BN_dup(k->q), *t = BN_new();
+			int ok;
+			BN_sub_word(p1, 1); BN_sub_word(q1, 1);
+			BN_mod_mul(t, d, k->e, p1, bnctx); ok = BN_is_one(t);
+			BN_mod_mul(t, d, k->e, q1, bnctx); ok &= BN_is_one(t);
+			ok &= (BN_cmp(d, k->n) < 0) && (l0 == l1);
+			CMP("compute_privexp");
+			if (!ok)
+				vf_viol(from_keygen ? "C10:keygen:privexp" : "C10:compute:privexp", "compute_privexp result is not an inverse of e modulo p-1 and q-1",
+					"%s sk=%s l0=%u l1=%u d=%s", g_ctx, sv->desc, (unsigned)l0, (unsigned)l1, vf_hexs(db, l1));
+			BN_free(d); BN_free(p1); BN_free(q1); BN_free(t);
+		}
+		/* wrong exponents: even, 1, and a non-invertible one must fail (documented conditions) */
+		{
+			size_t r;
+			r = m->cpriv(db, &sv->sk, 1);
+			CMP("compute_privexp_bad_e");
+			if (r != 0) vf_viol("C10:compute:privexp-bad-e", "compute_privexp accepted e = 1", "%s", g_ctx);
+			r = m->cpriv(db, &sv->sk, 65536);
+			CMP("compute_privexp_bad_e");
+			if (r != 0) vf_viol("C10:compute:privexp-bad-e", "compute_privexp accepted an even e", "%s", g_ctx);
+		}
+		free(db);
+	}
+}
+
+static void
+sec_compute(const rkey *k)
+{
+	int mi, j;
+	for (mi = 0; mi < NIMPL; mi ++) {
+		const impl_t *m = &IMPLS[mi];
+		if (!m->cmod && !m->cpub && !m->cpriv) continue;
+		snprintf(g_ctx, sizeof g_ctx, "unit=%d seed=%llu sec=compute impl=%s key=%s", g_unit, g_seed, m->name, k->name);
+		for (j = 0; j < 4; j ++) {
+			skv sv;
+			mk_sk_var(&sv, k, j);
+			check_compute(k, m, &sv, 0);
+			vf_distinct("config", "compute/%s/%s/%d", m->name, k->name, j);
+			free_sk(&sv);
+		}
+	}
+}
+
+/* ------------------------------------------------------------------ */
+/* Section KEYGEN */
+
+static const unsigned KG_SIZES_Q[] = { 512, 768, 1024, 1031 };
+static const unsigned KG_SIZES_T[] = { 512, 513, 768, 1024, 1031, 1536, 2048, 2049, 3072, 4096 };
+static const uint32_t KG_EXPS[] = { 3, 65537, 0, 17, 0xFFFFFFFF };
+
+static void
+sec_keygen(const impl_t *m, unsigned size, uint32_t pubexp, int round)
+{
+	br_hmac_drbg_context dc, dc2;
+	br_rsa_private_key sk;
+	br_rsa_public_key pk;
+	size_t kpl = BR_RSA_KBUF_PRIV_SIZE(size), kbl = BR_RSA_KBUF_PUB_SIZE(size);
+	unsigned char *kp = xmalloc(kpl), *kb = xmalloc(kbl);
+	uint32_t r, ee = pubexp ? pubexp : 3;
+	rkey k;
+	BIGNUM *t, *p1, *q1, *phi, *g;
+	int ok, mi;
+
+	if (!m->kg) { vf_stat("impl_unavailable", 1); free(kp); free(kb); return; }
+	drbg_init(&dc);
+	dc2 = dc;
+	memset(&sk, 0, sizeof sk); memset(&pk, 0, sizeof pk);
+	r = m->kg(&dc.vtable, &sk, kp, &pk, kb, size, pubexp);
+	CMP("keygen_returns_1");
+	vf_stat("keygen_keys", 1);
+	vf_distinct("config", "keygen/%s/%u/e%u", m->name, size, pubexp);
+	if (r != 1) {
+		vf_viol("C10:keygen:failed", "keygen returned 0 for valid parameters", "%s", g_ctx);
+		free(kp); free(kb);
+		return;
+	}
+	memset(&k, 0, sizeof k);
+	snprintf(k.name, sizeof k.name, "gen%u_e%u_%s_r%d", size, pubexp, m->name, round);
+	k.n = bn_from(pk.n, pk.nlen);
+	k.e = bn_from(pk.e, pk.elen);
+	k.p = bn_from(sk.p, sk.plen); k.q = bn_from(sk.q, sk.qlen);
+	k.dp = bn_from(sk.dp, sk.dplen); k.dq = bn_from(sk.dq, sk.dqlen); k.iq = bn_from(sk.iq, sk.iqlen);
+	t = BN_new(); p1 = BN_dup(k.p); q1 = BN_dup(k.q); phi = BN_new(); g = BN_new();
+	BN_sub_word(p1, 1); BN_sub_word(q1, 1);
+
+	CMP("keygen_size");
+	if (BN_num_bits(k.n) != (int)size || sk.n_bitlen != size)
+		vf_viol("C10:keygen:modulus-size", "generated modulus does not have exactly the requested size",
+			"%s bits=%d n_bitlen=%u n=%s", g_ctx, BN_num_bits(k.n), sk.n_bitlen, vf_hexs(pk.n, pk.nlen));
+	CMP("keygen_n_is_pq");
+	BN_mul(t, k.p, k.q, bnctx);
+	if (BN_cmp(t, k.n) != 0)
+		vf_viol("C10:keygen:n-not-pq", "public modulus != p*q", "%s p=%s q=%s", g_ctx, vf_hexs(sk.p, sk.plen), vf_hexs(sk.q, sk.qlen));
+	CMP("keygen_primes");
+	if (BN_check_prime(k.p, bnctx, NULL) != 1 || BN_check_prime(k.q, bnctx, NULL) != 1 || BN_cmp(k.p, k.q) == 0)
+		vf_viol("C10:keygen:not-prime", "p or q is not prime (BN_check_prime) or p = q", "%s p=%s q=%s", g_ctx, vf_hexs(sk.p, sk.plen), vf_hexs(sk.q, sk.qlen));
+	CMP("keygen_pubexp");
+	if (!BN_is_word(k.e, ee))
+		vf_viol("C10:keygen:public-exponent", "public key does not carry the requested exponent", "%s e=%s", g_ctx, vf_hexs(pk.e, pk.elen));
+	BN_set_word(t, ee);
+	BN_free(k.e); k.e = BN_dup(t);
+	CMP("keygen_dp");
+	BN_mod_mul(t, k.dp, k.e, p1, bnctx);
+	if (!BN_is_one(t) || BN_cmp(k.dp, p1) >= 0)
+		vf_viol("C10:keygen:dp", "dp is not the inverse of e modulo p-1 (reduced)", "%s p=%s dp=%s", g_ctx, vf_hexs(sk.p, sk.plen), vf_hexs(sk.dp, sk.dplen));
+	CMP("keygen_dq");
+	BN_mod_mul(t, k.dq, k.e, q1, bnctx);
+	if (!BN_is_one(t) || BN_cmp(k.dq, q1) >= 0)
+		vf_viol("C10:keygen:dq", "dq is not the inverse of e modulo q-1 (reduced)", "%s q=%s dq=%s", g_ctx, vf_hexs(sk.q, sk.qlen), vf_hexs(sk.dq, sk.dqlen));
+	CMP("keygen_iq");
+	BN_mod_mul(t, k.iq, k.q, k.p, bnctx);
+	if (!BN_is_one(t) || BN_cmp(k.iq, k.p) >= 0)
+		vf_viol("C10:keygen:iq", "iq is not the inverse of q modulo p (reduced)", "%s iq=%s", g_ctx, vf_hexs(sk.iq, sk.iqlen));
+	vf_stat(BN_cmp(k.p, k.q) > 0 ? "keygen_p_gt_q" : "keygen_p_lt_q", 1);
+	vf_sample("{\"sec\":\"keygen\",\"impl\":\"%s\",\"size\":%u,\"e\":%u,\"n\":\"%s\"}", m->name, size, ee, vf_hexs(pk.n, pk.nlen > 32 ? 32 : pk.nlen));
+
+	/* d for the reference side: inverse of e modulo (p-1)(q-1); needs gcd(e, phi) = 1 */
+	BN_mul(phi, p1, q1, bnctx);
+	BN_gcd(g, phi, k.e, bnctx);
+	k.d = BN_new();
+	ok = BN_is_one(g) && BN_mod_inverse(k.d, k.e, phi, bnctx) != NULL;
+	if (ok && BN_check_prime(k.p, bnctx, NULL) == 1 && BN_check_prime(k.q, bnctx, NULL) == 1) {
+		skv sv;
+		unsigned char hv[32];
+		unsigned char *sig0 = xmalloc(k.nlen ? k.nlen : (size + 7) / 8), *sig = NULL, *ref;
+		unsigned int sl = 0;
+		const hdesc *h = &HASHES[3];
+		int have0 = 0;
+
+		key_finish(&k);
+		free(sig0);
+		sig0 = xmalloc(k.nlen); ref = xmalloc(k.nlen);
+		sv.sk = sk;
+		snprintf(sv.desc, sizeof sv.desc, "keygen");
+		/* recomputed modulus / public exponent / private exponent, every engine */
+		for (mi = 0; mi < NIMPL; mi ++) {
+			char save[sizeof g_ctx];
+			if (!IMPLS[mi].cmod) continue;
+			memcpy(save, g_ctx, sizeof save);
+			snprintf(g_ctx, sizeof g_ctx, "%.150s compute=%s", save, IMPLS[mi].name);
+			check_compute(&k, &IMPLS[mi], &sv, 1);
+			memcpy(g_ctx, save, sizeof save);
+		}
+		/* sign in every implementation (identical, = OpenSSL), verify in every implementation */
+		vf_bytes(&R, hv, 32);
+		if (RSA_sign(h->nid, hv, 32, ref, &sl, k.rsa) != 1 || sl != k.nlen) HARNESS_FAIL("keygen-RSA_sign");
+		for (mi = 0; mi < NIMPL; mi ++) {
+			const impl_t *a = &IMPLS[mi];
+			pkv pv;
+			int mj;
+			if (!a->sign) continue;
+			/* the slow engines only on small keys */
+			if (size > 2049 && a->cost >= 100 && a != m) { vf_stat("keygen_roundtrip_skipped_budget", 1); continue; }
+			sig = xmalloc(k.nlen);
+			r = a->sign(h->oid, hv, 32, &sk, sig);
+			CMP("keygen_sign");
+			if (r != 1 || memcmp(sig, ref, k.nlen) != 0)
+				vf_viol("C10:keygen:sign-roundtrip", "signature with a generated key differs from OpenSSL's with the same key",
+					"%s signer=%s r=%u", g_ctx, a->name, r);
+			if (!have0) { memcpy(sig0, sig, k.nlen); have0 = 1; }
+			free(sig);
+			mk_pk(&pv, &k, 0, 0);
+			for (mj = 0; mj < NIMPL; mj ++) {
+				unsigned char ho[32];
+				if (!IMPLS[mj].vrfy) continue;
+				r = IMPLS[mj].vrfy(ref, k.nlen, h->oid, 32, &pk, ho);
+				CMP("keygen_vrfy");
+				if (r != 1 || memcmp(ho, hv, 32) != 0)
+					vf_viol("C10:keygen:sign-roundtrip", "verification with a generated public key fails",
+						"%s verifier=%s r=%u", g_ctx, IMPLS[mj].name, r);
+				if (mi > 0) break;   /* all verifiers once, then one per signer */
+			}
+			free_pk(&pv);
+		}
+		/* OAEP round trip with the generated key through the generating engine's siblings */
+		free(sig0); free(ref);
+	} else {
+		vf_viol("C10:keygen:e-not-invertible", "e is not invertible modulo (p-1)(q-1) or factors are composite", "%s", g_ctx);
+		key_finish(&k);
+	}
+
+	/* pk == NULL, kbuf_pub == NULL: same private key from the same PRNG state */
+	if (size <= (g_tier ? 2049u : 768u)) {
+		br_rsa_private_key sk2;
+		unsigned char *kp2 = xmalloc(kpl);
+		r = m->kg(&dc2.vtable, &sk2, kp2, NULL, NULL, size, pubexp);
+		CMP("keygen_without_public");
+		if (r != 1 || sk2.n_bitlen != sk.n_bitlen || sk2.plen != sk.plen || memcmp(sk2.p, sk.p, sk.plen) != 0
+			|| sk2.qlen != sk.qlen || memcmp(sk2.q, sk.q, sk.qlen) != 0
+			|| sk2.dplen != sk.dplen || memcmp(sk2.dp, sk.dp, sk.dplen) != 0
+			|| sk2.dqlen != sk.dqlen || memcmp(sk2.dq, sk.dq, sk.dqlen) != 0
+			|| sk2.iqlen != sk.iqlen || memcmp(sk2.iq, sk.iq, sk.iqlen) != 0)
+			vf_viol("C10:keygen:without-public", "keygen with pk = NULL gives another private key than with pk from the same PRNG state", "%s", g_ctx);
+		free(kp2);
+	}
+	/* invalid parameters: documented to return 0 */
+	{
+		br_rsa_private_key sk2;
+		unsigned char *kp2 = xmalloc(BR_RSA_KBUF_PRIV_SIZE(4104)), *kb2 = xmalloc(BR_RSA_KBUF_PUB_SIZE(4104));
+		br_rsa_public_key pk2;
+		static const struct { unsigned sz; uint32_t e; } bad[] = {
+			{ 511, 3 }, { 4097, 3 }, { 0, 3 }, { 1024, 1 }, { 1024, 2 }, { 1024, 65536 }, { 4104, 0 }
+		};
+		size_t u;
+		for (u = 0; u < sizeof bad / sizeof bad[0]; u ++) {
+			r = m->kg(&dc2.vtable, &sk2, kp2, &pk2, kb2, bad[u].sz, bad[u].e);
+			CMP("keygen_rejects_invalid");
+			if (r != 0)
+				vf_viol("C10:keygen:accepts-invalid", "keygen returned 1 for an unsupported size or an invalid exponent",
+					"%s size=%u e=%u", g_ctx, bad[u].sz, bad[u].e);
+		}
+		free(kp2); free(kb2);
+	}
+	BN_free(t); BN_free(p1); BN_free(q1); BN_free(phi); BN_free(g);
+	key_free(&k);
+	free(kp); free(kb);
+}
+
+/* ------------------------------------------------------------------ */
+
+#define MAXKEYS 32
+static rkey KEYS[MAXKEYS];
+static int nkeys;
+
+static int
+keycmp(const void *a, const void *b)
+{
+	const rkey *x = a, *y = b;
+	if (x->bits != y->bits) return x->bits - y->bits;
+	return strcmp(x->name, y->name);
+}
+
+enum { S_RAW, S_P1, S_PSS, S_OAEP, S_TLS, S_N };
+static const char *SECNAME[] = { "raw", "p1", "pss", "oaep", "tls" };
+
+int
+main(int argc, char **argv)
+{
+	const char *fix = vf_arg(argc, argv, "--fixtures", "fixtures/rsa");
+	int worker = (int)vf_argi(argc, argv, "--worker", 0);
+	int nworkers = (int)vf_argi(argc, argv, "--nworkers", 1);
+	int only = (int)vf_argi(argc, argv, "--unit", -1);
+	int list = (int)vf_argi(argc, argv, "--list", 0);
+	char path[600], line[200];
+	FILE *f;
+	int uid = 0, ki, si, mi;
+	const unsigned *sizes;
+	size_t nsizes, zi, ei;
+
+	g_seed = (unsigned long long)vf_argi(argc, argv, "--seed", 1);
+	g_cases = vf_argi(argc, argv, "--cases", 20);
+	g_tier = (int)vf_argi(argc, argv, "--tier", 0);
+	vf_max_samples = 2;
+	bnctx = BN_CTX_new();
+	init_impls();
+
+	snprintf(path, sizeof path, "%s/INDEX", fix);
+	f = fopen(path, "r");
+	if (!f) HARNESS_FAIL("fixture-index");
+	while (fgets(line, sizeof line, f) && nkeys < MAXKEYS) {
+		char file[44];
+		if (sscanf(line, "%43s", file) != 1) continue;
+		key_load(&KEYS[nkeys ++], fix, file);
+	}
+	fclose(f);
+	if (nkeys < 8) HARNESS_FAIL("too-few-fixture-keys");
+	qsort(KEYS, (size_t)nkeys, sizeof KEYS[0], keycmp);
+
+#define UNIT_BEGIN(fmt, ...) \
+	do { int mine = (only >= 0) ? (uid == only) : (uid % nworkers == worker); \
+		g_unit = uid; \
+		if (list) printf("unit %d " fmt "\n", uid, __VA_ARGS__); \
+		uid ++; \
+		if (!mine || list) break; \
+		vf_rng_init(&R, g_seed, (uint64_t)g_unit + 1000); \
+		vf_stat("units", 1);
+#define UNIT_END  } while (0)
+
+	for (ki = 0; ki < nkeys; ki ++) {
+		rkey *k = &KEYS[ki];
+		for (si = 0; si < S_N; si ++) {
+			for (mi = 0; mi < NIMPL; mi ++) {
+				const impl_t *m = &IMPLS[mi];
+				UNIT_BEGIN("%s %s %s", SECNAME[si], m->name, k->name);
+				snprintf(g_ctx, sizeof g_ctx, "unit=%d seed=%llu sec=%s impl=%s key=%s", g_unit, g_seed, SECNAME[si], m->name, k->name);
+				vf_distinct("key_impl", "%s/%s", k->name, m->name);
+				switch (si) {
+				case S_RAW: sec_raw(k, m); break;
+				case S_P1: sec_p1(k, m); break;
+				case S_PSS: sec_pss(k, m); break;
+				case S_OAEP: sec_oaep(k, m); break;
+				case S_TLS: sec_tls(k, m); break;
+				}
+				UNIT_END;
+			}
+		}
+		UNIT_BEGIN("compute all %s", k->name);
+		sec_compute(k);
+		UNIT_END;
+	}
+	if (g_tier) { sizes = KG_SIZES_T; nsizes = sizeof KG_SIZES_T / sizeof KG_SIZES_T[0]; }
+	else { sizes = KG_SIZES_Q; nsizes = sizeof KG_SIZES_Q / sizeof KG_SIZES_Q[0]; }
+	for (zi = 0; zi < nsizes; zi ++) {
+		for (ei = 0; ei < (g_tier ? 5u : 3u); ei ++) {
+			for (mi = 0; mi < NIMPL; mi ++) {
+				const impl_t *m = &IMPLS[mi];
+				int rounds, rd;
+				if (mi == 2) continue;          /* i32 has no key generator */
+				/* small sizes: several keys per combination */
+				rounds = sizes[zi] <= 1031 ? (g_tier ? 6 : 2) : 1;
+				if (sizes[zi] > 2049 && ei >= 3) continue;
+				for (rd = 0; rd < rounds; rd ++) {
+					UNIT_BEGIN("keygen %s %u e=%u round=%d", m->name, sizes[zi], KG_EXPS[ei], rd);
+					snprintf(g_ctx, sizeof g_ctx, "unit=%d seed=%llu sec=keygen impl=%s size=%u e=%u", g_unit, g_seed, m->name, sizes[zi], KG_EXPS[ei]);
+					sec_keygen(m, sizes[zi], KG_EXPS[ei], rd);
+					UNIT_END;
+				}
+			}
+		}
+	}
+	if (list) return 0;
+	vf_done();
+	return 0;
 }
